@@ -6,6 +6,7 @@ import GdcVerif.Model.JpegLsBits
 import GdcVerif.Model.Golomb
 import GdcVerif.Model.JpegLsRun
 import GdcVerif.Model.JpegLsScan
+import GdcVerif.Model.JpegLsScanL
 /-!
   Driver ops for the JPEG-LS kernels: every op evaluates a GENERATED definition
   (`Gen/JpegLs*.lean`) — or the hand model `JpegLsBits.bitsLen` — on the arguments the real Go
@@ -191,7 +192,35 @@ def scanDec (hx : String) (a : List Int) : String :=
     | .error f => failStr f
   | _ => "bad-op"
 
+def chunkL (n : Nat) : Nat → List Int → List (List Int)
+  | 0, _ => []
+  | f + 1, l => if l.isEmpty then [] else l.take n :: chunkL n f (l.drop n)
+
+/-- `jls-scanL-enc …` : same arguments and answer as `jls-scan-enc`, evaluated on the list model
+    `Model/JpegLsScanL.lean` (the one the lock-step theorems are about) -/
+def scanLEnc (a : List Int) : String :=
+  match a with
+  | _mode :: comps :: p :: near :: width :: height :: pixels =>
+    let t := NewTraits (2 ^ p.toNat - 1) near 64
+    let pxs := chunkL comps.toNat (width * height).toNat pixels
+    let lines := (List.range height.toNat).map (fun y => (pxs.drop (y * width.toNat)).take width.toNat)
+    match JpegLsScanL.encodeImage t width.toNat comps.toNat lines with
+    | .ok (ws, _) => "ok " ++ bytesToHex (Golomb.finish (Golomb.writeAll Golomb.Writer.new ws)).out
+    | .error f => failStr f
+  | _ => "bad-op"
+
+def scanLDec (hx : String) (a : List Int) : String :=
+  match a with
+  | [_mode, comps, p, near, width, height] =>
+    let t := NewTraits (2 ^ p.toNat - 1) near 64
+    match JpegLsScanL.decodeImage t width.toNat height.toNat comps.toNat (Golomb.destuff (hexToBytes hx) false) with
+    | .ok (lines, _) => ok (lines.flatMap (fun l => l.flatMap id))
+    | .error f => failStr f
+  | _ => "bad-op"
+
 def step? : List String → Option String
+  | "jls-scanL-dec" :: hx :: a => (ints? a).map (scanLDec hx)
+  | "jls-scanL-enc" :: a => (ints? a).map scanLEnc
   | "jls-scan-dec" :: hx :: a => (ints? a).map (scanDec hx)
   | "jls-scan-enc" :: a => (ints? a).map scanEnc
   | "jls-runseg-dec" :: hx :: a => (ints? a).map (runsegDec hx)
